@@ -53,6 +53,8 @@ T1d == Is("T1d") /\ fails' = T1dFails /\ l' = l + 1
 
 (* C16: state of the hierarchical density placement after a public operation *)
 HierFails ==
+    \* the executed instance is the logged one magnified by 2^kshift; a state that is not a whole number of units cannot be judged
+    IF ~Ev.units THEN {F("note", <<"state not in whole units of 2^kshift", Ev.kshift>>, "hier-not-in-units")} ELSE
     (IF Tiling(Ev.limX, Ev.limY, Ev.regions) THEN {} ELSE {F("C16", <<"bin limits do not tile the placement area", Ev.limX, Ev.limY>>, "tiling")}) \cup
     (IF CapacityExact(Ev.bins, Ev.limX, Ev.limY, Ev.regions) THEN {} ELSE {F("C16", <<"bin capacity differs from the free area inside the bin", Ev.op>>, "capacity")}) \cup
     (IF DSum([k \in 1..Len(Ev.bins) |-> Ev.bins[k].cap], Len(Ev.bins)) = Ev.totalCap
